@@ -90,6 +90,11 @@ def variants(kinds):
                 out.append(("C", f"{rel}:{q}: leading pass", rel, (q, None)))
             if "D" in kinds and len(fn.body) > 0:
                 out.append(("D", f"{rel}:{q}: leading print()", rel, (q, None)))
+            if "G" in kinds:
+                ifs = [n for n in ast.walk(fn) if isinstance(n, ast.If) and n.orelse and not (len(n.orelse) == 1 and isinstance(n.orelse[0], ast.If))]
+                nested = any(isinstance(n, (ast.FunctionDef, ast.AsyncFunctionDef)) for n in ast.walk(fn) if n is not fn)
+                if ifs and not nested:
+                    out.append(("G", f"{rel}:{q}: if/else branches inverted ({len(ifs)})", rel, (q, None)))
             if "E" in kinds:
                 rets = [n for n in ast.walk(fn) if isinstance(n, ast.Return) and n.value is not None and not isinstance(n.value, (ast.Constant, ast.Name))]
                 nested = any(isinstance(n, (ast.FunctionDef, ast.AsyncFunctionDef, ast.Lambda)) for n in ast.walk(fn) if n is not fn)
@@ -118,6 +123,11 @@ def make_variant(sc, kind, rel, arg):
             elif kind == "D":
                 doc = 1 if (fn.body and isinstance(fn.body[0], ast.Expr) and isinstance(fn.body[0].value, ast.Constant) and isinstance(fn.body[0].value.value, str)) else 0
                 fn.body.insert(doc, ast.parse("print('trace')").body[0])
+            elif kind == "G":
+                for n in ast.walk(fn):
+                    if isinstance(n, ast.If) and n.orelse and not (len(n.orelse) == 1 and isinstance(n.orelse[0], ast.If)):
+                        n.test = ast.UnaryOp(op=ast.Not(), operand=n.test)
+                        n.body, n.orelse = n.orelse, n.body
             elif kind == "E":
                 class Ret(ast.NodeTransformer):
                     def visit_FunctionDef(self, node):
@@ -167,7 +177,7 @@ def main():
     args = sys.argv[1:]
     props = ALL
     limit = None
-    kinds = [a for a in args if a in ("A", "B", "C", "D", "E")] or ["A", "B", "C", "D", "E"]
+    kinds = [a for a in args if a in ("A", "B", "C", "D", "E", "G")] or ["A", "B", "C", "D", "E", "G"]
     for i, a in enumerate(args):
         if a == "--props":
             props = args[i + 1].split(",")
